@@ -439,19 +439,23 @@ def flattenAnonPointer (fc : Facts) (x : Ext) (o : Opts) (ops : List (String × 
       -- a caller held by the schema that has just been moved to a definition moved with it (the namer has rewritten
       -- it there): its key is gone, it leaves the plan
       let moved := unescOrEmpty v.ref
+      -- so does every planned pointer held by that schema: it now lives under the new definition
+      let plans0 := plans.filter (fun p => p.1 = key || !Str.hasPrefix (moved ++ "/") p.1)
       let plans' := callers.foldl (fun ps caller =>
         if caller = key then ps
         else if Str.hasPrefix (moved ++ "/") caller then ps.filter (fun p => p.1 ≠ caller)
         else match ps.lookup caller with
           | some c => setPlan caller { c with ref := v.ref } ps
           -- `c := refsToReplace[caller]` on an absent key is the zero SchemaRef, stored back with the new Ref
-          | none => setPlan caller { ref := v.ref, schema := none, top := false } ps) plans
+          | none => setPlan caller { ref := v.ref, schema := none, top := false } ps) plans0
       pure (st', plans')
     else do
       let d ← Replace.updateRefWithSchema st.doc key schema
       pure ({ st with doc := d }, plans)
 
-def namePointers (fc : Facts) (x : Ext) (o : Opts) (s : St) : Outcome St := do
+/-- one pass of `namePointers`: plan, visit the plan deepest keys first, re-analyze; the flag tells that a planned key
+    was found gone (its holder moved to a new definition) -/
+def namePointersPass (fc : Facts) (x : Ext) (o : Opts) (s : St) : Outcome (St × Bool) := do
   -- plan: every `$ref` that is not a reference to a top-level definition
   let refs := allRefs s.idx
   let fuel := 64 + refs.length
@@ -469,17 +473,29 @@ def namePointers (fc : Facts) (x : Ext) (o : Opts) (s : St) : Outcome St := do
       pure (acc ++ [(kv.1, { ref := r.1, schema := r.2, top := Str.dir r.1 = "#/definitions" })])) []
   let ops ← opRefsByRef x s.idx
   let order := SortRef.depthFirst (plans.map (·.1))
-  let (s', _) ← order.foldlM (fun (acc : St × List (String × PtrPlan)) key => do
-    match acc.2.lookup key with
-    | none => pure acc
+  let (sp, replan) ← order.foldlM (fun (acc : (St × List (String × PtrPlan)) × Bool) key => do
+    match acc.1.2.lookup key with
+    | none => pure (acc.1, true)
     | some v =>
-      let r ← deepestRef x acc.1.doc (64 + refs.length + acc.2.length) v.ref
+      let r ← deepestRef x acc.1.1.doc (64 + refs.length + acc.1.2.length) v.ref
       let v' : PtrPlan := { ref := r.1, schema := r.2, top := Str.dir r.1 = "#/definitions" }
       if v'.top then do
-        let d ← Replace.updateRef acc.1.doc key v'.ref
-        pure ({ acc.1 with doc := d }, acc.2)
-      else flattenAnonPointer fc x o ops acc.1 acc.2 key v') (s, plans)
-  pure (syncNewRefs (reload fc s'))
+        let d ← Replace.updateRef acc.1.1.doc key v'.ref
+        pure (({ acc.1.1 with doc := d }, acc.1.2), acc.2)
+      else do
+        let r ← flattenAnonPointer fc x o ops acc.1.1 acc.1.2 key v'
+        pure (r, acc.2)) ((s, plans), false)
+  pure (syncNewRefs (reload fc sp.1), replan)
+
+/-- `namePointers` runs again while a pass has skipped a pointer that moved with its holder -/
+def namePointersLoop (fc : Facts) (x : Ext) (o : Opts) : Nat → St → Outcome St
+  | 0, _ => .outOfFuel
+  | fuel + 1, s => do
+    let (s1, replan) ← namePointersPass fc x o s
+    if replan then namePointersLoop fc x o fuel s1 else pure s1
+
+def namePointers (fc : Facts) (x : Ext) (o : Opts) (s : St) : Outcome St :=
+  namePointersLoop fc x o (8 + (allRefs s.idx).length) s
 
 /-! ### stripOAIGen -/
 
